@@ -1,3 +1,4 @@
+# C10 policy-history mutation self-test. Needs a scratch copy first: rsync -a --exclude .git /repo/ /work/s10d-repo/ ; run from anywhere: python3 tools/c10_pol_mutations.py [M1 M2 ...]; delete the copy afterwards.
 import subprocess, sys, shutil, os, re
 SRC='/repo/policies.go'; DST='/work/s10d-repo/policies.go'
 orig=open(SRC).read()
